@@ -135,8 +135,8 @@ def run(prog, rep, tier='quick', config='default'):
     # ------------------------------------------------------------------ R2a
     wfns = {}
     for fn in prog.product_fns():
-        if not fn.name.startswith(SFL) or fn.kind not in ('Fn', 'AssocFn'):
-            continue
+        if not fn.name.startswith('portfolio::bookkeeping::') or fn.kind not in ('Fn', 'AssocFn'):
+            continue      # anywhere in the bookkeeping (the helpers may live in a sub-module of their own)
         if fn.ty.get(0) != 'time::Date' or fn.argc != 1 or fn.ty.get(1) != 'time::Date':
             continue
         ar = [c for c in fn.calls if DATE_ARITH.search(c.callee)]
@@ -166,7 +166,7 @@ def run(prog, rep, tier='quick', config='default'):
     wnames = {first[0].name, last[0].name}
     n_private = 0
     for fn in prog.product_fns():
-        if not (fn.name.startswith(SFL) or fn.name.startswith('portfolio::summary::') or fn.name.startswith('portfolio::bookkeeping::delta_list::')):
+        if not (fn.name.startswith('portfolio::bookkeeping::') or fn.name.startswith('portfolio::summary::')):
             continue
         if fn.name in wnames:
             continue
